@@ -1,9 +1,9 @@
 SPECIFICATION Spec
 CONSTANTS
   Pool = {"plain", "caller", "main0", "bad_type", "calls_bad", "ct_good", "ct_bad", "ct_many", "ct_intr", "ct_exit", "ct_expr", "closure", "use_generic", "use_mono", "use_struct", "use_over", "effects", "long_names", "loops"}
-  EntryOps = {"main0", "caller"}
-  FirstOps = {}
-  MaxLen = 12
+  EntryOps = {}
+  FirstOps = {"compile:ct_intr", "compile:ct_exit"}
+  MaxLen = 2
   EmitHist = TRUE
 INVARIANT NoStaleRead
 INVARIANT CachesOfThisEpoch
